@@ -37,6 +37,16 @@ func (r *evRec) add(f string, a ...any) {
 	r.mu.Unlock()
 }
 
+// addNow records an event whose text is read inside the recorder's critical section: what it reports (a state) is true at
+// the event's position in the trace — events recorded before it happened before the reading, nothing between reading and record
+func (r *evRec) addNow(text func() string) {
+	r.mu.Lock()
+	r.evs = append(r.evs, text())
+	r.last = time.Now()
+	r.ts = append(r.ts, r.last.Sub(r.t0))
+	r.mu.Unlock()
+}
+
 // addIf records the event if the (non-blocking) action succeeded, atomically with it: nothing the action
 // causes can be recorded before the event itself
 func (r *evRec) addIf(act func() bool, f string, a ...any) {
